@@ -116,6 +116,10 @@ class BinSys:
         self.stats["ev:" + op[0]] += 1
         m2, must, may = self.model_step(model, op)
         raised = False
+        if "C12" in self.props:
+            v = self._probe_same(t, model, "before_event")
+            if v:
+                return Step(None, model, [v])
         try:
             self.apply(t, op, form)
         except NodeOverrideError:
@@ -138,6 +142,19 @@ class BinSys:
             viols.append(V("C12", "override_accepted", "a non-empty value was stored under a key that is a proper prefix or extension of a stored key",
                            event=op[0], key=op[1], model=model))
             return Step(None, model, viols)
+        v = self._probe_same(t, m2, "after_event_same_object")
+        if v:
+            viols.append(v)
+        # the root that was current before the event is still completely readable from the same database
+        old = BinaryTrie(dict(post[1]), snap[0])
+        for p in self.probes:
+            try:
+                if old.get(p) != model.get(p):
+                    viols.append(V("C12", "earlier_root_changed", "the previous root no longer reads the contents it had", event=op[0], key=p))
+                    break
+            except Exception as e:  # noqa
+                viols.append(V("C12", "earlier_root_unreadable", f"reading the previous root raised {type(e).__name__}", event=op[0], key=p))
+                break
         want = bt.root(m2)
         if post[0] != want:
             viols.append(V("C12", "root_not_canonical", "root hash is not the hash of the canonical encoding of the contents", event=op[0], key=op[1],
@@ -160,6 +177,16 @@ class BinSys:
         if any(k not in pre_clo and k not in written for k in t.db.reads):
             viols.append(V("C12", "read_outside_closure", "an entry not reachable from the current root was read", event=op[0]))
         return Step(post, m2, viols)
+
+    def _probe_same(self, t, m, where):
+        for p in self.probes:
+            try:
+                got = t.get(p)
+            except Exception as e:  # noqa
+                return V("C12", "lookup_raised", f"get({p.hex()}) raised {type(e).__name__}", form="get", key=p, where=where, model=m)
+            if got != m.get(p):
+                return V("C12", "lookup_wrong", f"get({p.hex()}) returned {got!r}, map model says {m.get(p)!r}", form="get", key=p, where=where, model=m)
+        return None
 
     def state_check(self, snap, model):
         viols = []
